@@ -993,6 +993,18 @@ def required(arg):
     return arg["ty"]["k"] != "opt" and arg["default"] is None
 
 
+def _clonable(vd):
+    """values `clone()` handles (a declared default is cloned for every instance): scalars, paths, enums, lists, dicts"""
+    k = vd["k"]
+    if k in ("bool", "int", "float", "str", "path", "enum", "none"):
+        return True
+    if k == "list":
+        return all(_clonable(x) for x in vd["vs"])
+    if k == "dict":
+        return all(kk["k"] in ("str", "int") for kk in vd["ks"]) and all(_clonable(x) for x in vd["vs"])
+    return False
+
+
 def run_set_cases(ctx, groups, with_model=True, source="generated"):
     """groups: [(arg, [(kind, value, depth)])] -> assigns through the real code, monitors, compares with the model"""
     P = pkg(ctx)
@@ -1006,26 +1018,39 @@ def run_set_cases(ctx, groups, with_model=True, source="generated"):
         if arg["default"] is not None:
             dflt = f" = _H.build(_json.loads({json.dumps(json.dumps(arg['default']))}), _W)"
         body.append(f"\n\nclass C{i}(Config):\n    __xpmid__ = \"{P.name}.set{P.n + 1}.c{i}\"\n    x: Param[{ann}]{dflt}\n")
+    # fourth entry point: the value is the DECLARED DEFAULT of the parameter (validated and coerced when the class is first
+    # instantiated); the class is built inside a factory so that a rejected default raises at the call, like an assignment
+    as_default = {}
+    for i, (arg, vals) in enumerate(groups):
+        if arg["default"] is None and not ({"cfg", "any", "union"} & set(ty_kinds(arg["ty"], []))):
+            for j, (kind, vd, depth) in enumerate(vals):
+                if (i + j) % 4 == 0 and vd["k"] != "none" and kind != "none" and _clonable(vd):
+                    ann = render_ty(arg["ty"], S_NAMES)
+                    body.append(f"\n\ndef mkD{i}_{j}():\n    class D{i}_{j}(Config):\n        __xpmid__ = \"{P.name}.set{P.n + 1}.d{i}x{j}\"\n"
+                                f"        x: Param[{ann}] = _H.build(_json.loads({json.dumps(json.dumps(vd))}), _W)\n    return D{i}_{j}()\n")
+                    as_default[(i, j)] = True
     _, M = P.module("\n".join(body))
     lines, impls, metas = [], [], []
     for i, (arg, vals) in enumerate(groups):
         cls = getattr(M, f"C{i}")
-        for kind, vd, depth in vals:
+        for j, (kind, vd, depth) in enumerate(vals):
             one_set_case(ctx, cls, arg, kind, vd, depth, W0, impl, lines, impls, metas, source)
+            if (i, j) in as_default:
+                one_set_case(ctx, cls, arg, kind, vd, depth, W0, impl, lines, impls, metas, source, factory=getattr(M, f"mkD{i}_{j}"))
     for name, arg, vd in SPECIAL if source == "generated" else []:
         one_set_case(ctx, getattr(P.lib, name), arg, "readonly", vd, 0, W0, impl, lines, impls, metas, source)
     if with_model and lines:
         compare(ctx, lines, impls, metas)
 
 
-def one_set_case(ctx, cls, arg, kind, vd, depth, W0, impl, lines, impls, metas, source):
+def one_set_case(ctx, cls, arg, kind, vd, depth, W0, impl, lines, impls, metas, source, factory=None):
     rng_via = (len(lines) % 3 == 0)
     # third public entry point: copyconfig(cfg, x=v) (it lifts the read-only restriction by design: not used for constants / generated)
-    via_copy = (len(lines) % 7 == 3) and not arg.get("constant") and not arg.get("generator")
+    via_copy = (len(lines) % 7 == 3) and not arg.get("constant") and not arg.get("generator") and factory is None
     w = W0.fresh()
     t = arg["ty"]
     vdm = with_mro(vd, S_MROS)
-    case = {"op": "set", "arg": arg_line(arg), "argd": arg, "v": vdm, "kind": kind, "via": "copyconfig" if via_copy else ("setattr" if rng_via else "ctor")}
+    case = {"op": "set", "arg": arg_line(arg), "argd": arg, "v": vdm, "kind": kind, "via": "default" if factory is not None else "copyconfig" if via_copy else ("setattr" if rng_via else "ctor")}
     try:
         v = build(vd, w)
     except Exception as e:  # not a buildable candidate
@@ -1033,7 +1058,9 @@ def one_set_case(ctx, cls, arg, kind, vd, depth, W0, impl, lines, impls, metas, 
         return
     out, stored_d = None, None
     try:
-        if via_copy:
+        if factory is not None:
+            o = factory()
+        elif via_copy:
             from experimaestro import copyconfig
             o = copyconfig(cls(), x=v)
         elif rng_via:
